@@ -33,59 +33,45 @@
    without_* of the eight earlier fixes are "that fix and C11-10 missing", [without_in_place] is the
    code with the eight fixes only.
 
-   What is proved and what is not (C11_full stays a Definition, see C11_partial_note below):
-   * PROVED, unbounded, for ANY WELL-FORMED FIELD in the sense of C10 (RelGrammar.wf_rfield:
-     arbitrary white space in every slot, newlines, empty entries, trailing comma, substitution
-     variables) and the empty field, for all twelve operations (push / insert / replace /
-     remove_entry / Entry::push / Entry::replace / remove_relation / set_version /
-     drop_constraint / set_archqual, and set_architectures / add_profile), operands built by
-     Entry::from(vec![Relation::new(..)]) / Relation::new with identifier texts (section 1b) or
-     obtained by parsing the text of any well-formed entry / relation with Entry::from_str /
-     Relation::from_str (section 1c; the two kinds mixed freely in a history).
-     One operation (C11_any_step, C11_any_step_tree, C11_any_field_step): the register machine,
-     started with the tree of the field in the root register, does not panic; the root then holds
-     the tree of the layout the abstract operation [a_op] produces; that layout is well-formed;
-     its content is the list model [xstep] applied to the content before; substitution variables
-     and all entries the operation does not name are untouched (the same layouts, so the same
-     text).  Histories by induction (C11_any_history, _from_text, _from_strict_text, _from_empty,
-     _all) and the re-read after every step through C10 (C11_any_reread): the printed text is a
-     well-formed field and parses, without error (strictly, when substitution variables are not
-     allowed), to exactly the list model's content.
-     No new defect turned up on the odd-but-well-formed layouts: with the eight fixes every
-     operation is total on well-formed layouts (C11_any_step: a_op is defined whenever the
-     positions exist, in particular Entry::remove's "Unexpected node" panic is unreachable).
-   * PROVED earlier, for fields built by the constructors (sections 1, 2): the same with the
-     result spelled out as the canonical tree and text of the list model [lfield] of
-     RelEditSpec.v and read by the accessor model [structure]:
-     C11_history_constructed(_reread), C11_history_from_constructors, C11_history_from_new.
-   * PROVED for ANY children list (any layout, error nodes included): the frame lemmas of the
-     list surgery (section 3), the store-level effect of Entry::remove through a handle at any
-     path of any tree (section 4), and the machine = tree function theorem on any tree
-     (C11_any_machine_step).
-   * NOT PROVED — what remains of C11_full (covered by the rel-edit stream and its oracle on
-     every run): (a) operands built by RelationBuilder / From<lossy::Relation> (qualifier,
-     architectures, profiles added to a relation that is the root of its own tree: the
-     re-rooting tail of set_version & co. then takes its parentless branch) and Entry::new +
-     push; the layers above the store are already stated for an arbitrary well-formed operand
-     layout;
-     (b) C11_full quantifies over every text that PARSES without error; section 1b quantifies
-     over the renderings of well-formed fields (C10 proves wf field => parses without error to
-     rtree_of; the converse, that nothing else parses without error, is not proved);
-     (c) section 1b states the content with C10's [rcontent]/[racc] (name, qualifier, operator
-     and version text, architectures, profiles) and C11_full with this cone's accessor model
-     [structure]; the two are not connected by a theorem for arbitrary layouts.
-   * PROVED with proposed_fixes/C11-10 (section 1d): handles obtained at ANY earlier time.  For
-     every program of the eighteen operations through arbitrary registers (in scope: see 1d) the
-     machine does not panic, the root holds the list model's content, and every Entry / Relation
-     handle denotes the entry / alternative the abstract reading says it does (positions shifted
-     by the edits in front of it) — C11_handles_step, _history, _history_field.  The pre-fix
-     code refutes it: C11_in_place_refuted, C11_in_place_relation_refuted. *)
+   What is proved:
+   * C11_full ITSELF (RelEditSpec.C11_full, the property as first stated, for the code as it is in
+     /repo): C11_full_theorem in section 1e.  From any text that is read without error and whose
+     accessors do not panic (`structure t0 = Ok f0`: every version operator is one of the five;
+     C11_full_domain_witness shows that this hypothesis is needed), every in-range history of the
+     twelve operations with well-formed operands — any record, built by Relation::new or by
+     RelationBuilder — runs without panic, leaves exactly the list model's field in the root, keeps
+     the substitution variables, and prints a text that is read again without error to that same
+     field.  One correction of the STATEMENT was needed (not of the code): `compile` builds an operand
+     record that has architectures or profiles through RelationBuilder also when it has no qualifier
+     (C11_builder_operand_witness); nothing was removed from the statement.
+     How: C10's image theorem (every error-free text is the rendering of a LIBERAL layout,
+     RelGrammarAll.afield: any operator run, versions like 5::, "[]", "<>", "[!! x !]", "<! a>", CR as
+     white space) + model/RelLiveAll.v, the mirror of RelLive.v with liberal parts (the editing
+     operations only look at the KINDS of a relation's children; the inside of a part is carried along
+     unchanged) + proofs/RelLiveAll*P.v (the mirrors of RelLive*P.v; new: the token list of a
+     normalised live layout is a lexer output, RelLiveAllNormP.lexable_norm; the content of a layout
+     is what RelEdit.structure reads, structure_ltree) + proofs/RelEditBuildP.v (RelationBuilder at
+     store level).  C11_all_step / _history / _reread / _start are the single-step, history, re-read
+     and embedding theorems of that development; C11_all_handles_* lift the handle theorems of
+     section 1d to it (model/RelHandlesAll.v, proofs/RelHandlesAllP.v).
+   * Sections 1, 1b, 1c, 1d (earlier): the same for constructor-built fields with the canonical tree
+     spelled out, for Policy-shaped fields (RelGrammar.wf_rfield) with contents stated through C10's
+     racc, for operands obtained by PARSING (Entry::from_str / Relation::from_str), and for handles
+     obtained at any earlier time.  Sections 2-4: canonical shapes, frame lemmas on ANY children
+     list, the store-level effect of Entry::remove.  Sections 5, 6: for every defect of the code
+     before this cone's fixes a `_refuted` theorem.
+   * What is NOT proved (covered by the rel-edit stream and its oracle on every run): operands
+     obtained by parsing are proved for Policy-shaped fields only (section 1c), not yet in the liberal
+     development; in the handle theorems (1d, 1e): operations issued through a handle into an operand
+     not yet handed over, or through a handle whose node has left the field. *)
 From V.model Require Import Base RelLex RelParse RelAcc RelGrammar RelEdit RelEditSpec RelEditTree RelLive RelHandles.
+From V.model Require RelLiveAll RelHandlesAll.
 From V.proofs Require Import BaseP RelEditP RelEditStP RelEditHistP RelEditReparseP RelEditFullP RelEditRefuteP.
-From V.proofs Require Import RelEditTreeP RelEditReplaceP RelEditParsedP RelLiveP RelLiveStepP RelLiveWfP RelLiveNormP RelLiveHistP RelLiveParsedP RelHandlesP.
+From V.proofs Require Import RelEditTreeP RelEditReplaceP RelEditParsedP RelLiveP RelLiveStepP RelLiveWfP RelLiveNormP RelLiveHistP RelLiveParsedP RelHandlesP RelEditBuildP.
+From V.proofs Require RelLiveAllStepP RelLiveAllHistP RelHandlesAllP.
 
-(* the whole property, as a statement about a variant of the code (model/RelEditSpec.v) *)
-Definition C11_partial_note : Prop := C11_full fixed.
+(* the whole property is RelEditSpec.C11_full, a statement about a variant of the code; it is proved
+   for the code as it is in /repo: C11_full_theorem (section 1e) *)
 
 (* 1. Histories (the proved part of C11_full): no panic, refinement, visibility in the root, text *)
 Theorem C11_history_constructed : forall ops f st,
@@ -604,6 +590,183 @@ Check C11_handles_start : forall b st l, holds st (ltree l) -> lwf b l = true ->
   Rel b (snd (lcontent l)) st (mk_hstate (fst (lcontent l)) (h_of st)).
 Print Assumptions C11_handles_start.
 
+(* 1e. From ANY text the reader accepts without error, and operands built by RelationBuilder: C11_full.
+   model/RelLiveAll.v mirrors RelLive.v name by name with LIBERAL parts (RelGrammarAll's aqual / aver /
+   agroup / pgroup: any operator run, versions like 5::, [], <>, [!! x !], <! a>, CR as white space):
+   the editing operations only look at the KINDS of a relation's children, the inside of a part is
+   carried along unchanged.  Content = the record RelEdit.structure reads (relrec), list model =
+   RelEditSpec.astep, operands = what Relation::new / RelationBuilder build (RelEditSpec.brel_tree).
+   Names of that development are written qualified here. *)
+(* every text read without error whose accessors do not panic (structure = Ok: every operator is one of the five) is the tree of a well-formed liberal live layout with that content (through C10_image) *)
+Theorem C11_all_start : forall b s t0 f0, parse_relaxed s b = Ok (t0, 0) -> structure t0 = Ok f0 ->
+  exists l0, RelLiveAll.ltree l0 = t0 /\ RelLiveAll.lwf b l0 = true /\ fst (RelLiveAll.lcontent l0) = f0.
+Proof. exact RelLiveAllHistP.start_layout. Qed.
+Check C11_all_start : forall b s t0 f0, parse_relaxed s b = Ok (t0, 0) -> structure t0 = Ok f0 ->
+  exists l0, RelLiveAll.ltree l0 = t0 /\ RelLiveAll.lwf b l0 = true /\ fst (RelLiveAll.lcontent l0) = f0.
+Print Assumptions C11_all_start.
+
+(* (1) one operation (all twelve; operands_ok = RelEditSpec.wf_operands: any record with identifier texts, built by Relation::new or RelationBuilder) on ANY well-formed liberal layout: no panic, the tree of the abstract operation's layout, well-formed, list model astep on contents, substitution variables and the other entries untouched *)
+Theorem C11_all_step : forall b o l st, RelLiveAll.lwf b l = true -> RelLiveAll.operands_ok o = true ->
+  RelLiveAll.x_in_range (fst (RelLiveAll.lcontent l)) o = true -> holds st (RelLiveAll.ltree l) ->
+  exists l' st', RelLiveAll.a_op o l = Some l' /\
+                 run_ops fixed (compile o) st = Ok st' /\ holds st' (RelLiveAll.ltree l') /\
+                 RelLiveAll.lwf b l' = true /\
+                 RelLiveAll.lcontent l' = (RelLiveAll.xstep (fst (RelLiveAll.lcontent l)) o, snd (RelLiveAll.lcontent l)) /\
+                 RelLiveAllStepP.lentries l' = RelLiveAllStepP.estep (RelLiveAllStepP.lentries l) o.
+Proof. exact RelLiveAllHistP.live_step. Qed.
+Check C11_all_step : forall b o l st, RelLiveAll.lwf b l = true -> RelLiveAll.operands_ok o = true ->
+  RelLiveAll.x_in_range (fst (RelLiveAll.lcontent l)) o = true -> holds st (RelLiveAll.ltree l) ->
+  exists l' st', RelLiveAll.a_op o l = Some l' /\
+                 run_ops fixed (compile o) st = Ok st' /\ holds st' (RelLiveAll.ltree l') /\
+                 RelLiveAll.lwf b l' = true /\
+                 RelLiveAll.lcontent l' = (RelLiveAll.xstep (fst (RelLiveAll.lcontent l)) o, snd (RelLiveAll.lcontent l)) /\
+                 RelLiveAllStepP.lentries l' = RelLiveAllStepP.estep (RelLiveAllStepP.lentries l) o.
+Print Assumptions C11_all_step.
+
+(* (2) histories *)
+Theorem C11_all_history : forall b ops l st, RelLiveAll.lwf b l = true -> forallb RelLiveAll.operands_ok ops = true ->
+  hist_in_range (fst (RelLiveAll.lcontent l)) ops = true -> holds st (RelLiveAll.ltree l) ->
+  exists l' st', RelLiveAll.a_ops ops l = Some l' /\
+                 run_ops fixed (compile_all ops) st = Ok st' /\ holds st' (RelLiveAll.ltree l') /\
+                 RelLiveAll.lwf b l' = true /\
+                 RelLiveAll.lcontent l' = (fold_left astep ops (fst (RelLiveAll.lcontent l)), snd (RelLiveAll.lcontent l)).
+Proof. exact RelLiveAllHistP.live_history. Qed.
+Check C11_all_history : forall b ops l st, RelLiveAll.lwf b l = true -> forallb RelLiveAll.operands_ok ops = true ->
+  hist_in_range (fst (RelLiveAll.lcontent l)) ops = true -> holds st (RelLiveAll.ltree l) ->
+  exists l' st', RelLiveAll.a_ops ops l = Some l' /\
+                 run_ops fixed (compile_all ops) st = Ok st' /\ holds st' (RelLiveAll.ltree l') /\
+                 RelLiveAll.lwf b l' = true /\
+                 RelLiveAll.lcontent l' = (fold_left astep ops (fst (RelLiveAll.lcontent l)), snd (RelLiveAll.lcontent l)).
+Print Assumptions C11_all_history.
+
+(* (3) the re-read through C10_image_sound: the text of a well-formed liberal live layout is the rendering of a liberal layout (RelLiveAll.norm: white space that an edit left in several tokens or in another node is one slot again; the token list is a lexer output), so it is read without error, to a tree whose structure is the content *)
+Theorem C11_all_reread : forall b l, RelLiveAll.lwf b l = true ->
+  exists t'', parse_relaxed (text (RelLiveAll.ltree l)) b = Ok (t'', 0) /\ text t'' = text (RelLiveAll.ltree l) /\
+              structure t'' = Ok (fst (RelLiveAll.lcontent l)) /\ substvar_texts t'' = snd (RelLiveAll.lcontent l).
+Proof. exact RelLiveAllHistP.live_reread. Qed.
+Check C11_all_reread : forall b l, RelLiveAll.lwf b l = true ->
+  exists t'', parse_relaxed (text (RelLiveAll.ltree l)) b = Ok (t'', 0) /\ text t'' = text (RelLiveAll.ltree l) /\
+              structure t'' = Ok (fst (RelLiveAll.lcontent l)) /\ substvar_texts t'' = snd (RelLiveAll.lcontent l).
+Print Assumptions C11_all_reread.
+
+(* the content of a layout is what the accessors read from its tree *)
+Theorem C11_all_structure : forall b l, RelLiveAll.lwf b l = true ->
+  structure (RelLiveAll.ltree l) = Ok (fst (RelLiveAll.lcontent l)) /\ substvar_texts (RelLiveAll.ltree l) = snd (RelLiveAll.lcontent l).
+Proof. exact RelLiveAllHistP.structure_live. Qed.
+Check C11_all_structure : forall b l, RelLiveAll.lwf b l = true ->
+  structure (RelLiveAll.ltree l) = Ok (fst (RelLiveAll.lcontent l)) /\ substvar_texts (RelLiveAll.ltree l) = snd (RelLiveAll.lcontent l).
+Print Assumptions C11_all_structure.
+
+(* layer A with operands built by RelationBuilder, on ANY tree: the machine computes bt_op (operand trees RelEditSpec.brel_tree / bentry_tree) *)
+Theorem C11_all_machine_step : forall o T T' st,
+  is_node T = true -> ereplace_ready o T -> holds st T -> bt_op o T = Ok T' ->
+  exists st', run_ops fixed (compile o) st = Ok st' /\ holds st' T'.
+Proof. exact RelEditBuildP.bop_step_tree. Qed.
+Check C11_all_machine_step : forall o T T' st,
+  is_node T = true -> ereplace_ready o T -> holds st T -> bt_op o T = Ok T' ->
+  exists st', run_ops fixed (compile o) st = Ok st' /\ holds st' T'.
+Print Assumptions C11_all_machine_step.
+
+(* handles obtained at ANY earlier time, on liberal layouts and with operands built by Relation::new or RelationBuilder (model/RelHandlesAll.v, the mirror of RelHandles.v: the content is a list of relrec records, the list model is astep): one operation through whatever registers it names *)
+Theorem C11_all_handles_step : forall b sv st a o a' tr,
+  RelHandlesAllP.Rel b sv st a -> RelHandlesAll.h_op o a = Some (a', tr) -> forallb RelLiveAll.operands_ok tr = true ->
+  exists out st', run_op fixed o st = Ok (out, st') /\ RelHandlesAllP.Rel b sv st' a'.
+Proof. exact RelHandlesAllP.handles_step. Qed.
+Check C11_all_handles_step : forall b sv st a o a' tr,
+  RelHandlesAllP.Rel b sv st a -> RelHandlesAll.h_op o a = Some (a', tr) -> forallb RelLiveAll.operands_ok tr = true ->
+  exists out st', run_op fixed o st = Ok (out, st') /\ RelHandlesAllP.Rel b sv st' a'.
+Print Assumptions C11_all_handles_step.
+
+(* programs *)
+Theorem C11_all_handles_history : forall b sv ops st a a' tr,
+  RelHandlesAllP.Rel b sv st a -> RelHandlesAll.h_ops ops a = Some (a', tr) -> forallb RelLiveAll.operands_ok tr = true ->
+  exists st', run_ops fixed ops st = Ok st' /\ RelHandlesAllP.Rel b sv st' a'.
+Proof. exact RelHandlesAllP.handles_history. Qed.
+Check C11_all_handles_history : forall b sv ops st a a' tr,
+  RelHandlesAllP.Rel b sv st a -> RelHandlesAll.h_ops ops a = Some (a', tr) -> forallb RelLiveAll.operands_ok tr = true ->
+  exists st', run_ops fixed ops st = Ok st' /\ RelHandlesAllP.Rel b sv st' a'.
+Print Assumptions C11_all_handles_history.
+
+(* from ANY text read without error (accessors not panicking), ANY in-scope program of the eighteen operations through ANY registers: no panic; every register denotes what the abstract reading says (Rel); the root's structure is the list model's history folded over the structure of the text, substitution variables unchanged; the printed text is read again without error to that same structure *)
+Theorem C11_all_handles_history_text : forall b s t0 f0 st ops a' tr,
+  parse_relaxed s b = Ok (t0, 0) -> structure t0 = Ok f0 -> holds st t0 ->
+  RelHandlesAll.h_ops ops (RelHandlesAll.mk_hstate f0 (RelHandlesAllP.h_of st)) = Some (a', tr) ->
+  forallb RelLiveAll.operands_ok tr = true ->
+  exists st' l',
+    run_ops fixed ops st = Ok st' /\
+    RelHandlesAllP.Rel b (substvar_texts t0) st' a' /\
+    RelHandlesAll.h_f a' = fold_left astep tr f0 /\
+    root_tree st' = Ok (RelLiveAll.ltree l') /\ root_text st' = Ok (text (RelLiveAll.ltree l')) /\
+    structure (RelLiveAll.ltree l') = Ok (fold_left astep tr f0) /\
+    substvar_texts (RelLiveAll.ltree l') = substvar_texts t0 /\
+    exists t'', parse_relaxed (text (RelLiveAll.ltree l')) b = Ok (t'', 0) /\ text t'' = text (RelLiveAll.ltree l') /\
+                structure t'' = Ok (fold_left astep tr f0) /\ substvar_texts t'' = substvar_texts t0.
+Proof. exact RelHandlesAllP.handles_history_text. Qed.
+Check C11_all_handles_history_text : forall b s t0 f0 st ops a' tr,
+  parse_relaxed s b = Ok (t0, 0) -> structure t0 = Ok f0 -> holds st t0 ->
+  RelHandlesAll.h_ops ops (RelHandlesAll.mk_hstate f0 (RelHandlesAllP.h_of st)) = Some (a', tr) ->
+  forallb RelLiveAll.operands_ok tr = true ->
+  exists st' l',
+    run_ops fixed ops st = Ok st' /\
+    RelHandlesAllP.Rel b (substvar_texts t0) st' a' /\
+    RelHandlesAll.h_f a' = fold_left astep tr f0 /\
+    root_tree st' = Ok (RelLiveAll.ltree l') /\ root_text st' = Ok (text (RelLiveAll.ltree l')) /\
+    structure (RelLiveAll.ltree l') = Ok (fold_left astep tr f0) /\
+    substvar_texts (RelLiveAll.ltree l') = substvar_texts t0 /\
+    exists t'', parse_relaxed (text (RelLiveAll.ltree l')) b = Ok (t'', 0) /\ text t'' = text (RelLiveAll.ltree l') /\
+                structure t'' = Ok (fold_left astep tr f0) /\ substvar_texts t'' = substvar_texts t0.
+Print Assumptions C11_all_handles_history_text.
+
+(* an Entry handle that denotes entry i shows the i-th entry of the field as it is now *)
+Theorem C11_all_handles_entry : forall b sv st a k i, RelHandlesAllP.Rel b sv st a -> RelHandlesAll.h_reg a (ereg k) = Some (RelHandlesAll.ELive i) ->
+  exists l e, root_tree st = Ok (RelLiveAll.ltree l) /\ RelLiveAll.lcontent l = (RelHandlesAll.h_f a, sv) /\
+              nth_error (RelLiveAllStepP.lentries l) i = Some e /\
+              reg_text (ereg k) st = Ok (Some (text (RelLiveAll.lentry_tree e)), st).
+Proof. exact RelHandlesAllP.Rel_entry_handle. Qed.
+Check C11_all_handles_entry : forall b sv st a k i, RelHandlesAllP.Rel b sv st a -> RelHandlesAll.h_reg a (ereg k) = Some (RelHandlesAll.ELive i) ->
+  exists l e, root_tree st = Ok (RelLiveAll.ltree l) /\ RelLiveAll.lcontent l = (RelHandlesAll.h_f a, sv) /\
+              nth_error (RelLiveAllStepP.lentries l) i = Some e /\
+              reg_text (ereg k) st = Ok (Some (text (RelLiveAll.lentry_tree e)), st).
+Print Assumptions C11_all_handles_entry.
+
+(* and a Relation handle the j-th alternative of the i-th entry *)
+Theorem C11_all_handles_relation : forall b sv st a m i j, RelHandlesAllP.Rel b sv st a -> RelHandlesAll.h_reg a (rreg m) = Some (RelHandlesAll.RLive i j) ->
+  exists l e r, root_tree st = Ok (RelLiveAll.ltree l) /\ RelLiveAll.lcontent l = (RelHandlesAll.h_f a, sv) /\
+                nth_error (RelLiveAllStepP.lentries l) i = Some e /\ RelLiveAll.nth_rel e j = Some r /\
+                reg_text (rreg m) st = Ok (Some (text (RelLiveAll.lrel_tree r)), st).
+Proof. exact RelHandlesAllP.Rel_relation_handle. Qed.
+Check C11_all_handles_relation : forall b sv st a m i j, RelHandlesAllP.Rel b sv st a -> RelHandlesAll.h_reg a (rreg m) = Some (RelHandlesAll.RLive i j) ->
+  exists l e r, root_tree st = Ok (RelLiveAll.ltree l) /\ RelLiveAll.lcontent l = (RelHandlesAll.h_f a, sv) /\
+                nth_error (RelLiveAllStepP.lentries l) i = Some e /\ RelLiveAll.nth_rel e j = Some r /\
+                reg_text (rreg m) st = Ok (Some (text (RelLiveAll.lrel_tree r)), st).
+Print Assumptions C11_all_handles_relation.
+
+(* C11, IN FULL (RelEditSpec.C11_full, for the code as it is in /repo): from any text that parses without error and whose accessors do not panic, every in-range history with well-formed operands runs without panic, the root holds exactly the list model's field, the substitution variables keep their text, and the printed text parses again without error to that same field *)
+Theorem C11_full_theorem : C11_full fixed.
+Proof. exact RelLiveAllHistP.C11_full_fixed. Qed.
+Check C11_full_theorem : C11_full fixed.
+Print Assumptions C11_full_theorem.
+
+(* the hypothesis `structure t0 = Ok f0` of C11_full is needed and is exactly the domain: "a (> 1), b" is read without error but Relation::version() panics on its first relation (the reader accepts any run of < > = as an operator: C12's class c12-nonstandard-operator), so the field has no list-model reading; the edits themselves do not use the accessors and still work next to it *)
+Theorem C11_full_domain_witness : reads_clean [97; 32; 40; 62; 32; 49; 41; 44; 32; 98]%N = true /\
+  match parse_relaxed [97; 32; 40; 62; 32; 49; 41; 44; 32; 98]%N true with Ok (t, _) => structure t | _ => Err 0%N end = Panic 51%N /\
+  run_text fixed (IRelaxed [97; 32; 40; 62; 32; 49; 41; 44; 32; 98]%N) (compile (ASetVersion 1 0 (Some (VGe, [50]%N)))) = Ok [97; 32; 40; 62; 32; 49; 41; 44; 32; 98; 32; 40; 62; 61; 32; 50; 41]%N.
+Proof. exact nonstandard_operator_structure. Qed.
+Check C11_full_domain_witness : reads_clean [97; 32; 40; 62; 32; 49; 41; 44; 32; 98]%N = true /\
+  match parse_relaxed [97; 32; 40; 62; 32; 49; 41; 44; 32; 98]%N true with Ok (t, _) => structure t | _ => Err 0%N end = Panic 51%N /\
+  run_text fixed (IRelaxed [97; 32; 40; 62; 32; 49; 41; 44; 32; 98]%N) (compile (ASetVersion 1 0 (Some (VGe, [50]%N)))) = Ok [97; 32; 40; 62; 32; 49; 41; 44; 32; 98; 32; 40; 62; 61; 32; 50; 41]%N.
+Print Assumptions C11_full_domain_witness.
+
+(* the one correction of the STATEMENT: compile builds an operand record that has architectures or profiles but no qualifier with RelationBuilder (rel_spec); as first written it used Relation::new for every record without qualifier, which drops them *)
+Theorem C11_builder_operand_witness : 
+  run_text fixed INew [ONewEntry 1 (ESFromVec [RSNew [97]%N None]); OPush 1] = Ok [97]%N /\
+  run_text fixed INew (compile (APush [(mk_relrec [97]%N None None (Some [[97; 109; 100; 54; 52]%N]) [])])) = Ok [97; 32; 91; 97; 109; 100; 54; 52; 93]%N.
+Proof. exact (conj builder_operand_old builder_operand_new). Qed.
+Check C11_builder_operand_witness : 
+  run_text fixed INew [ONewEntry 1 (ESFromVec [RSNew [97]%N None]); OPush 1] = Ok [97]%N /\
+  run_text fixed INew (compile (APush [(mk_relrec [97]%N None None (Some [[97; 109; 100; 54; 52]%N]) [])])) = Ok [97; 32; 91; 97; 109; 100; 54; 52; 93]%N.
+Print Assumptions C11_builder_operand_witness.
+
 (* 2. Constructor-built fields read back as the list they were built from, and print canonically *)
 Theorem C11_structure_constructed : forall f, plain_field f = true -> structure (cfield_tree f) = Ok f.
 Proof. exact structure_cfield. Qed.
@@ -924,4 +1087,26 @@ Example C11_handles_ex :
   forallb operands_ok tr = true /\
   run_text fixed (IStrict [97; 44; 32; 98; 32; 124; 32; 99; 44; 32; 100]%N) ops = Ok [120; 44; 32; 99; 58; 97; 110; 121; 32; 40; 62; 61; 32; 49; 41]%N /\
   run_text without_in_place (IStrict [97; 44; 32; 98; 32; 124; 32; 99; 44; 32; 100]%N) ops = Ok [120; 44; 32; 98; 32; 124; 32; 99; 44; 32; 100]%N.
+Proof. vm_compute. repeat split; reflexivity. Qed.
+
+(* Non-vacuity of C11_full_theorem: a text no Policy-shaped field has — CR as white space, no space
+   before the version, a version "5::", an architecture list "[!! x !]", profile groups "<a !b ! c>"
+   and "<>", a substitution variable "${::a:}", an empty entry and a trailing comma —
+     "\r a:b(= 5::)[!! x !]<a !b ! c><>|z , ${::a:},,"
+   is read without error, its accessors do not panic; a history with builder-built operands
+   (qualifier, architectures, profiles) is in range; the machine prints
+     "\r a:b(>= 2)[!! x !]<a !b ! c><> <r> | n:any [amd64] <p !q> , ${::a:},, w:native <!s>"
+   which is read again without error to exactly the list model's field. *)
+Example C11_full_ex :
+  let sfield s := match parse_relaxed s true with Ok (t, 0) => structure t | _ => Err 1%N end in
+  let s0 := [13; 32; 97; 58; 98; 40; 61; 32; 53; 58; 58; 41; 91; 33; 33; 32; 120; 32; 33; 93; 60; 97; 32; 33; 98; 32; 33; 32; 99; 62; 60; 62; 124; 122; 32; 44; 32; 36; 123; 58; 58; 97; 58; 125; 44; 44]%N in
+  let f0 := [[mk_relrec [97]%N (Some [98]%N) (Some (VEq, [53; 58; 58]%N)) (Some [[33; 120]%N]) [[PEnabled [97]%N; PDisabled [98]%N; PDisabled []%N; PEnabled [99]%N]; []]; mk_relrec [122]%N None None None []]] in
+  let ops := [ASetVersion 0 0 (Some (VGe, [50]%N)); AEPush 0 (mk_relrec [110]%N (Some [97; 110; 121]%N) None (Some [[97; 109; 100; 54; 52]%N]) [[PEnabled [112]%N; PDisabled [113]%N]]);
+              ASetArchs 0 1 [[105; 51; 56; 54]%N]; AAddProfile 0 0 [PEnabled [114]%N];
+              APush [mk_relrec [119]%N None None None [[PDisabled [115]%N]]]; ARemoveRelation 0 1; ASetArchqual 1 0 [110; 97; 116; 105; 118; 101]%N] in
+  let s1 := [13; 32; 97; 58; 98; 40; 62; 61; 32; 50; 41; 91; 33; 33; 32; 120; 32; 33; 93; 60; 97; 32; 33; 98; 32; 33; 32; 99; 62; 60; 62; 32; 60; 114; 62; 32; 124; 32; 110; 58; 97; 110; 121; 32; 91; 97; 109; 100; 54; 52; 93; 32; 60; 112; 32; 33; 113; 62; 32; 44; 32; 36; 123; 58; 58; 97; 58; 125; 44; 44; 32; 119; 58; 110; 97; 116; 105; 118; 101; 32; 60; 33; 115; 62]%N in
+  sfield s0 = Ok f0 /\ hist_in_range f0 ops = true /\ forallb wf_operands ops = true /\
+  run_text fixed (IRelaxed s0) (compile_all ops) = Ok s1 /\
+  fold_left astep ops f0 = [[mk_relrec [97]%N (Some [98]%N) (Some (VGe, [50]%N)) (Some [[33; 120]%N]) [[PEnabled [97]%N; PDisabled [98]%N; PDisabled []%N; PEnabled [99]%N]; []; [PEnabled [114]%N]]; mk_relrec [110]%N (Some [97; 110; 121]%N) None (Some [[97; 109; 100; 54; 52]%N]) [[PEnabled [112]%N; PDisabled [113]%N]]]; [mk_relrec [119]%N (Some [110; 97; 116; 105; 118; 101]%N) None None [[PDisabled [115]%N]]]] /\
+  sfield s1 = Ok (fold_left astep ops f0).
 Proof. vm_compute. repeat split; reflexivity. Qed.
